@@ -47,6 +47,18 @@ pub fn check_kind(t: &Trace<'_>, m: &Model, out: &mut CaseOut, prop: &'static st
             }
         }
     }
+    // (d') a resumed connection on which a request of this kind was due for retransmission and whose
+    // stream stops decoding: the retransmission is not the byte-identical copy the property asks
+    // for (something else was written into it, or it was cut and continued wrongly)
+    for ci in &t.conns {
+        let c = &w.conns[ci.idx];
+        if let Some((off, why)) = &c.out.error {
+            let resumed = ci.connack.as_ref().is_some_and(|k| k.0) && !c.out.packets.is_empty() && ci.qos0_cancel_at.is_none() && !ci.write_zero;
+            if resumed && m.msgs.iter().any(|x| x.kind == kind && x.ev_accept < ci.ev_begin && x.outstanding_at(ci.ev_begin) && x.rels.is_empty()) {
+                out.violations.push(viol(prop, format!("{}/retransmission-undecodable/{}", prop, kind), format!("conn {}: resumed connection with a {} to retransmit, but its stream stops decoding at offset {}: {}", ci.idx, kind, off, why)));
+            }
+        }
+    }
     // (b') the model stops attributing packets to a request once its acknowledgement was consumed:
     // a later packet with the same identifier and the same bytes is that request sent again
     for o in &m.orphans {
